@@ -212,7 +212,7 @@ func TestCheck(t *testing.T) {
 		run.Note("first_touch_of_an_expired_key_by_operation", sh.firstTouch)
 		run.Finish(t)
 	})
-	run.Rule("(i) first-toucher matrix: 11 ways to write a short-lived, already expired (also: expiry pointing to the zero time) or never expiring (year 2300 / 9999) record x 4 unrelated interludes x 3 clock advances x 17 first touchers x 9 second touchers; (ii) 1-3 waiters parked while the record is alive, 0..n-1 of them (the earliest) give up, clock advanced past the expiry; (iii)/(iv) every sequence over 26 operation instances (writes with short/long/no/past/never expiry on 2 keys; Redis: the server-side time to live of every written key is compared with the given expiry, all readers, Advance 1/3/2000 units) to the depth bound plus seeded random sequences; each followed by a full observation (Get, GetMany, ListKeys, Create); (vii) Redis: the record expires / is deleted by somebody else between the read and the write of a CasByVersion holding its current version (server pre-hook before MULTI / SET / EXEC): only nil (and then stored) or ErrNotExist are explainable; likewise the record that makes a Create fail expires / is deleted before Create looks again: ErrExist or nil; (vi) inmem, real scheduling: readers of an expired, not yet purged record race a writer of a record without expiry (80 000 / 3 200 000 rounds), the written record must survive; (v) inmem on the real clock: a record without expiry is written right at the expiry of its predecessor while waiters are parked on it and a long ListKeys keeps the lock busy - it must survive. Compared call by call with the contract model with a logical clock. distinct = distinct logical store states (presence, value, remaining lifetime, last write) reached")
+	run.Rule("(i) first-toucher matrix: 11 ways to write a short-lived, already expired (also: expiry pointing to the zero time) or never expiring (year 2300 / 9999) record x 4 unrelated interludes x 3 clock advances x 17 first touchers x 9 second touchers; (ii) 1-3 waiters parked while the record is alive, 0..n-1 of them (the earliest) give up, clock advanced past the expiry; (iii)/(iv) every sequence over 26 operation instances (writes with short/long/no/past/never expiry on 2 keys; Redis: the server-side time to live of every written key is compared with the given expiry, all readers, Advance 1/3/2000 units) to the depth bound plus seeded random sequences; each followed by a full observation (Get, GetMany, ListKeys, Create); (vii) Redis: the record expires / is deleted by somebody else between the read and the write of a CasByVersion holding its current version (server pre-hook before MULTI / SET / EXEC): only nil (and then stored) or ErrNotExist are explainable; likewise the record that makes a Create fail expires / is deleted before Create looks again: ErrExist or nil, and the record a Create writes after a slow retry must not outlive its ExpiresAt; (vi) inmem, real scheduling: readers of an expired, not yet purged record race a writer of a record without expiry (80 000 / 3 200 000 rounds), the written record must survive; (v) inmem on the real clock: a record without expiry is written right at the expiry of its predecessor while waiters are parked on it and a long ListKeys keeps the lock busy - it must survive. Compared call by call with the contract model with a logical clock. distinct = distinct logical store states (presence, value, remaining lifetime, last write) reached")
 	run.Assume("expirations lie at half clock units and the clock moves in whole units, so the exact expiry instant is never sampled")
 	run.Assume("inmem: testing/synctest virtual clock; Redis: miniredis, whose clock is the sum of FastForward calls")
 
@@ -559,6 +559,37 @@ func casAcrossExpiry(run *report.Run) *kvmodel.Vio {
 		case errors.Is(cerr, gerrors.ErrExist):
 		default:
 			return &kvmodel.Vio{Sig: "redis/Create/unexplainable-result-across-expiry", What: fmt.Sprintf("%s; it returned %v: only ErrExist (the record was there) or nil (it is gone, so the key was free) can be explained", desc, cerr)}
+		}
+	}
+	// a Create that has to go round (the blocking record vanishes while its slow second look is under way: the
+	// pre-hook deletes the record and lets 300 ms of real time pass): the record it finally writes must not
+	// outlive the expiry it was given - the server's time to live may not exceed what is left until ExpiresAt
+	{
+		rs.InstallDefaultHook()
+		rs.MR.FlushAll()
+		if _, err := rs.S.Put(bg, kvs.Record{Key: "cx", Value: []byte("0")}); err != nil {
+			return &kvmodel.Vio{Sig: "redis/Put/error", What: err.Error()}
+		}
+		var fired atomic.Bool
+		sawSet := false
+		rs.MR.Server().SetPreHook(func(_ *server.Peer, cmd string, _ ...string) bool {
+			if cmd == "SETNX" || cmd == "SET" {
+				sawSet = true
+			} else if sawSet && fired.CompareAndSwap(false, true) {
+				rs.MR.Del("/kvs/cx")
+				time.Sleep(300 * time.Millisecond)
+			}
+			return false
+		})
+		exp := time.Now().Add(2 * time.Second)
+		_, cerr := rs.S.Create(bg, kvs.Record{Key: "cx", Value: []byte("1"), ExpiresAt: &exp})
+		left := time.Until(exp)
+		rs.InstallDefaultHook()
+		if fired.Load() && cerr == nil {
+			run.Add("redis_create_after_slow_retry_cases", 1)
+			if ttl := rs.MR.TTL("/kvs/cx"); ttl > left+150*time.Millisecond {
+				return &kvmodel.Vio{Sig: "redis/Create/stored/outlives-its-expiry", What: fmt.Sprintf("a Create had to try twice (the record in its way vanished during its slow second look, 300 ms); when it returned %v were left until the ExpiresAt it was given, but the server keeps the record for %v", left.Round(time.Millisecond), ttl)}
+			}
 		}
 	}
 	return nil
